@@ -15,10 +15,20 @@ import RrModel.Spec.Tables
   * `cycle2_508`, `self_508` (the former witnesses `cycle2_runs_away`, `self_runs_away`): a 2-cycle
     and a plain self-redirect, stored hop by hop through a non-restarting rule that shares the
     cache, read through the restarting one: 508 for every fuel from `maxRedirects + 1` on.
+  * `step_ok`, `skip_never_revalidates`, `no_304_row_under_skip`: every re-entry of cachingFunc is
+    a counted redirect or the re-entry after a 304; the latter runs with `skipRevalidate`, is never
+    handed a RevalidatingWriter and so is never followed by another one of its kind.
   * `run_not_runaway`, `cached_terminates : CachedTerminationStatement` (FULL strength since the
     repair of findings C18-a / C18-c; was `CachedTerminationStatement_false`): no request of any
-    history on any rule set, origin, store and lock set is cut as `runaway` once the fuel covers
-    the counter (`maxRedirects + 1` activations).
+    history on any rule set, origin (conditional or not), store and lock set is cut as `runaway`
+    once the fuel covers `need` = two activations per redirect the counter still allows
+    (`2 · (maxRedirects + 1)` for a client request; attained up to one: the ring example).
+  * `revalidation_reenters`, `revalidated_hop_keeps_target`, `revalidated_hop_followed`,
+    `revalidated_final_served`, `revalidation_request_conditional` (full): a stale stored hop that
+    the origin confirms with 304 keeps its target, status and body; the request is the warm request
+    on the revalidated store with exactly one conditional contact in front.
+  * `fails_witness_09b` (witness): finding C09-b seen from C18 — a 304 that forbids storing is
+    handed to the client instead of the chain's final response.
   * `hit_replays_entry` (full): a fresh stored non-redirect answer is replayed (status, body)
     without contact and without touching the cache.
   * `fill_then_hit` (full): warm = cold for a request answered by its first hop: whatever rule
@@ -49,13 +59,69 @@ def foundNext (cfg : RedirectCache.Cfg) (now : Int) (locks : List Bytes) (store 
       match rf with
       | none => none
       | some rule =>
-        match cacheGet store (cacheId, keyOf rule r) (locks.contains (keyOf rule r)) now rule.forceRevalidate with
-        | .found e _ =>
+        match cacheGet store (cacheId, keyOf rule r) (locks.contains (keyOf rule r)) now rule.forceRevalidate a.skipRevalidate with
+        | .found e _ _ =>
           if rule.restartOnRedirect ∧ cfg.isRedirect e.status then
             (RedirectCache.requestWithRedirect r e.redirectedURL).map fun rr =>
               { req := rr, overrideURL := some rr.url, frf := some rule, inc := {}, hops := a.hops + 1 }
           else none
         | _ => none
+
+/-- the prologue every cached branch shares (server.go:102-153): the effective rule with its cache,
+    the request after the header overrides, and the storage key -/
+def Prologue (cfg : RedirectCache.Cfg) (a : Act) (rule : Rule) (r : Redirect.Req) : Prop :=
+  ∃ q : Query, query a.req = .ok q ∧
+    r = { a.req with headers := preprocess a.req.headers ((Option.map (·.requestHeaders) (matchedRule cfg.rules q)).getD []) } ∧
+    effectiveRule (matchedRule cfg.rules q) a.frf = some rule ∧
+    ¬ (rule.cacheId.length = 0 ∨ ¬ cfg.hasStorage rule.cacheId ∨ ¬ (r.method = b!"GET" ∨ r.method = b!"HEAD"))
+
+/-- one activation behind the prologue: what `cache.Get` hands out decides the row -/
+theorem step_of_prologue (cfg : RedirectCache.Cfg) (now : Int) (locks : List Bytes) (store : Store) (a : Act)
+    (rule : Rule) (r : Redirect.Req) (hp : Prologue cfg a rule r) :
+    step cfg now locks store a =
+      match cacheGet store (rule.cacheId, keyOf rule r) (locks.contains (keyOf rule r)) now rule.forceRevalidate a.skipRevalidate with
+      | .outside => .done (.done { sent := .outside, contacts := [], store := store })
+      | .wait => .done (.selfwait [])
+      | .found e age stale => foundRow cfg locks store a r rule e age stale
+      | .writer revalidating => writerRow cfg now locks store a r (some rule) (keyOf rule r) (rule.cacheId, keyOf rule r) revalidating := by
+  obtain ⟨q, hq, hr, hrf, hcache⟩ := hp
+  subst hr
+  unfold step
+  simp only [hq, hrf, Option.map_some, Option.getD_some]
+  rw [if_neg hcache]
+  rfl
+
+/-- `foundNext` says: the prologue holds, `cache.Get` answers Found with a redirect to follow -/
+theorem foundNext_spec (cfg : RedirectCache.Cfg) (now : Int) (locks : List Bytes) (store : Store) (a a' : Act)
+    (h : foundNext cfg now locks store a = some a') :
+    ∃ rule r e age stale rr, Prologue cfg a rule r ∧
+      cacheGet store (rule.cacheId, keyOf rule r) (locks.contains (keyOf rule r)) now rule.forceRevalidate a.skipRevalidate = .found e age stale ∧
+      (rule.restartOnRedirect ∧ cfg.isRedirect e.status) ∧
+      RedirectCache.requestWithRedirect r e.redirectedURL = some rr ∧
+      a' = { req := rr, overrideURL := some rr.url, frf := some rule, inc := {}, hops := a.hops + 1 } := by
+  unfold foundNext at h
+  cases hq : query a.req with
+  | panic s => rw [hq] at h; simp at h
+  | ok q1 =>
+    rw [hq] at h
+    simp only at h
+    split at h
+    · simp at h
+    · rename_i hc
+      cases hrf : effectiveRule (matchedRule cfg.rules q1) a.frf with
+      | none => rw [hrf] at h; simp at h
+      | some rule =>
+        rw [hrf] at h hc
+        simp only [Option.map_some, Option.getD_some] at h hc
+        split at h
+        · rename_i e age stale hg
+          split at h
+          · rename_i hr
+            simp only [Option.map_eq_some_iff] at h
+            obtain ⟨rr, hrr, rfl⟩ := h
+            exact ⟨rule, _, e, age, stale, rr, ⟨q1, hq, rfl, hrf, hc⟩, hg, hr, hrr, rfl⟩
+          · simp at h
+        all_goals simp at h
 
 /-- what the Found site does, given that it applies: re-enter when the counter allows, else 508 -/
 theorem found_site (cfg : RedirectCache.Cfg) (now : Int) (n : Nat) (locks : List Bytes) (store : Store) (a a' : Act)
@@ -64,38 +130,13 @@ theorem found_site (cfg : RedirectCache.Cfg) (now : Int) (n : Nat) (locks : List
       if a.hops + 1 > cfg.maxRedirects then
         .done { sent := .userError 508 b!"Loop detected", contacts := [], store := store }
       else run cfg now n locks store a' := by
-  unfold foundNext at h
+  obtain ⟨rule, r, e, age, stale, rr, hp, hg, hr, hrr, rfl⟩ := foundNext_spec cfg now locks store a a' h
   conv => lhs; unfold run
-  cases hq : query a.req with
-  | panic s => rw [hq] at h; simp at h
-  | ok q1 =>
-    rw [hq] at h
-    simp only at h ⊢
-    split at h
-    · simp at h
-    · rename_i hc
-      rw [if_neg hc]
-      cases hrf : effectiveRule (matchedRule cfg.rules q1) a.frf with
-      | none => rw [hrf] at h; simp at h
-      | some rule =>
-        rw [hrf] at h
-        simp only at h ⊢
-        split at h
-        · rename_i e age hg
-          simp only [Option.map_some, Option.getD_some] at hg
-          split at h
-          · rename_i hr
-            cases hrr : RedirectCache.requestWithRedirect
-                { a.req with headers := preprocess a.req.headers ((Option.map (·.requestHeaders) (matchedRule cfg.rules q1)).getD []) }
-                e.redirectedURL with
-            | none => rw [hrr] at h; simp at h
-            | some rr =>
-              rw [hrr] at h
-              simp only [Option.map_some, Option.some.injEq] at h
-              subst h
-              simp only [Option.map_some, Option.getD_some, hg, hr, and_self, if_true, hrr]
-          · simp at h
-        all_goals simp at h
+  rw [step_of_prologue cfg now locks store a rule r hp, hg]
+  simp only [foundRow, hr, and_self, if_true, hrr]
+  by_cases hm : a.hops + 1 > cfg.maxRedirects
+  · simp only [if_pos hm]
+  · simp only [if_neg hm]; rfl
 
 /-- **found_reentry**: whenever the Found site applies and the counter allows another redirect,
     one activation of `cachingFunc` is EXACTLY the next one, the counter one higher: no URL is
@@ -177,39 +218,42 @@ theorem found_loop_508 (cfg : RedirectCache.Cfg) (now : Int) (locks : List Bytes
 
 /-! ## A hit, and warm = cold for a request answered by its first hop -/
 
-/-- the part of the prologue every cached branch shares: the effective rule with its cache, the
-    request after the header overrides, and the storage key -/
-def Prologue (cfg : RedirectCache.Cfg) (a : Act) (rule : Rule) (r : Redirect.Req) : Prop :=
-  ∃ q : Query, query a.req = .ok q ∧
-    r = { a.req with headers := preprocess a.req.headers ((Option.map (·.requestHeaders) (matchedRule cfg.rules q)).getD []) } ∧
-    effectiveRule (matchedRule cfg.rules q) a.frf = some rule ∧
-    ¬ (rule.cacheId.length = 0 ∨ ¬ cfg.hasStorage rule.cacheId ∨ ¬ (r.method = b!"GET" ∨ r.method = b!"HEAD"))
-
 /-- **hit_replays_entry**: a fresh stored answer that is not a redirect to be followed is
     replayed as it was stored — status, body, Location — without any contact, and the cache
     stays as it is -/
 theorem hit_replays_entry (cfg : RedirectCache.Cfg) (now : Int) (n : Nat) (locks : List Bytes) (store : Store) (a : Act)
-    (rule : Rule) (r : Redirect.Req) (e : Entry) (age : Int)
+    (rule : Rule) (r : Redirect.Req) (e : Entry) (age : Int) (stale : Bool)
     (hp : Prologue cfg a rule r)
-    (hg : cacheGet store (rule.cacheId, keyOf rule r) (locks.contains (keyOf rule r)) now rule.forceRevalidate = .found e age)
+    (hg : cacheGet store (rule.cacheId, keyOf rule r) (locks.contains (keyOf rule r)) now rule.forceRevalidate a.skipRevalidate = .found e age stale)
     (hnr : ¬ (rule.restartOnRedirect ∧ cfg.isRedirect e.status)) :
     run cfg now (n + 1) locks store a =
-      .done { sent := .response e.status e.body (e.header.get b!"Location") { status := hitStatus a.inc, age := some age },
+      .done { sent := .response e.status e.body (e.header.get b!"Location") { status := hitStatus a.inc stale, age := some age },
               contacts := [], store := store } := by
-  obtain ⟨q, hq, hr, hrf, hcache⟩ := hp
-  subst hr
   unfold run
-  simp only [hq, hrf, Option.map_some, Option.getD_some]
-  rw [if_neg hcache]
-  simp only [hg, if_neg hnr]
+  rw [step_of_prologue cfg now locks store a rule r hp, hg]
+  simp only [foundRow, if_neg hnr]
+
+/-- the request a writer-kind cache result sends to the destination (server.go:346-357): the
+    stored validator on it for a RevalidatingWriter -/
+def writerReq (store : Store) (rule : Rule) (r : Redirect.Req) (reval : Bool) : Redirect.Req :=
+  { r with headers := (surgeryOf reval r.headers (store.headerOf (rule.cacheId, keyOf rule r))).req }
+
+/-- the 304 row's guard (server.go:382-384) -/
+def Is304Row (store : Store) (rule : Rule) (r : Redirect.Req) (reval : Bool) (rt : Routed) : Prop :=
+  (surgeryOf reval r.headers (store.headerOf (rule.cacheId, keyOf rule r))).used.length > 0 ∧ rt.resp.status = 304 ∧
+    (getCacheControlDirectives rt.resp.header).doNotCache = false
+
+instance (store : Store) (rule : Rule) (r : Redirect.Req) (reval : Bool) (rt : Routed) :
+    Decidable (Is304Row store rule r reval rt) := by unfold Is304Row; infer_instance
 
 /-- what the writer branch does with a cacheable answer that is not a redirect (server.go
     311-457 for this case): the entry it publishes -/
 theorem fill_stores_entry (cfg : RedirectCache.Cfg) (now : Int) (n : Nat) (locks : List Bytes) (store : Store) (a : Act)
     (rule : Rule) (r : Redirect.Req) (reval : Bool) (rt : Routed)
     (hp : Prologue cfg a rule r)
-    (hg : cacheGet store (rule.cacheId, keyOf rule r) (locks.contains (keyOf rule r)) now rule.forceRevalidate = .writer reval)
-    (hroute : route cfg r a.overrideURL (some rule) = .ok rt)
+    (hg : cacheGet store (rule.cacheId, keyOf rule r) (locks.contains (keyOf rule r)) now rule.forceRevalidate a.skipRevalidate = .writer reval)
+    (hroute : route cfg (writerReq store rule r reval) a.overrideURL (some rule) = .ok rt)
+    (hn304 : ¬ Is304Row store rule r reval rt)
     (hdnc : (getCacheControlDirectives rt.resp.header).doNotCache = false)
     (hsie : (reval && decide (rt.resp.status ≥ 400) && staleIfErrorGranted store (rule.cacheId, keyOf rule r)) = false)
     (hgate : ¬ (¬ inGate cfg rt.resp.status ∨ (rt.resp.status = 200 ∧ rt.resp.body = [])))
@@ -219,12 +263,13 @@ theorem fill_stores_entry (cfg : RedirectCache.Cfg) (now : Int) (n : Nat) (locks
                         { status := if reval then b!"revalidated" else b!"miss", age := some 0 },
               contacts := [rt.contact],
               store := store.put (rule.cacheId, keyOf rule r) (entryOf rt.resp [] now reval) } := by
-  obtain ⟨q, hq, hr, hrf, hcache⟩ := hp
-  subst hr
+  unfold writerReq at hroute
+  unfold Is304Row at hn304
   unfold run
-  simp only [hq, hrf, Option.map_some, Option.getD_some]
-  rw [if_neg hcache]
-  simp only [hg, hroute, hdnc, hsie, if_neg hgate, hnored]
+  rw [step_of_prologue cfg now locks store a rule r hp, hg]
+  simp only [writerRow, hroute, afterAnswer]
+  rw [if_neg hn304]
+  simp only [hdnc, hsie, if_neg hgate, hnored]
   simp
 
 theorem store_get_put (s : Store) (k : StoreKey) (e : Entry) : (s.put k e).get k = some e := by
@@ -237,8 +282,9 @@ theorem store_get_put (s : Store) (k : StoreKey) (e : Entry) : (s.put k e).get k
 theorem fill_then_hit (cfg : RedirectCache.Cfg) (now : Int) (n m : Nat) (store : Store) (a : Act)
     (rule : Rule) (r : Redirect.Req) (reval : Bool) (rt : Routed)
     (hp : Prologue cfg a rule r)
-    (hg : cacheGet store (rule.cacheId, keyOf rule r) false now rule.forceRevalidate = .writer reval)
-    (hroute : route cfg r a.overrideURL (some rule) = .ok rt)
+    (hg : cacheGet store (rule.cacheId, keyOf rule r) false now rule.forceRevalidate a.skipRevalidate = .writer reval)
+    (hroute : route cfg (writerReq store rule r reval) a.overrideURL (some rule) = .ok rt)
+    (hn304 : ¬ Is304Row store rule r reval rt)
     (hdnc : (getCacheControlDirectives rt.resp.header).doNotCache = false)
     (hsie : (reval && decide (rt.resp.status ≥ 400) && staleIfErrorGranted store (rule.cacheId, keyOf rule r)) = false)
     (hgate : ¬ (¬ inGate cfg rt.resp.status ∨ (rt.resp.status = 200 ∧ rt.resp.body = [])))
@@ -246,24 +292,24 @@ theorem fill_then_hit (cfg : RedirectCache.Cfg) (now : Int) (n m : Nat) (store :
     (hnr : cfg.isRedirect rt.resp.status = false)
     (age : Int)
     (hfresh : Freshness.get false { header := (entryOf rt.resp [] now reval).header, created := now,
-                                    revalidated := if reval then now else 0 } now rule.forceRevalidate false [] [] none
+                                    revalidated := if reval then now else 0 } now rule.forceRevalidate a.skipRevalidate [] [] none
               = .ok (.foundFresh age)) :
     ∃ d d', run cfg now (n + 1) [] store a = .done d ∧ run cfg now (m + 1) [] d.store a = .done d' ∧
       (∃ inc inc', d.sent = .response rt.resp.status rt.resp.body rt.resp.location inc ∧
                    d'.sent = .response rt.resp.status rt.resp.body (((entryOf rt.resp [] now reval).header).get b!"Location") inc') ∧
       d'.contacts = [] ∧ d'.store = d.store := by
-  have hcold := fill_stores_entry cfg now n [] store a rule r reval rt hp (by simpa using hg) hroute hdnc hsie hgate hnored
+  have hcold := fill_stores_entry cfg now n [] store a rule r reval rt hp (by simpa using hg) hroute hn304 hdnc hsie hgate hnored
   let st' := store.put (rule.cacheId, keyOf rule r) (entryOf rt.resp [] now reval)
-  have hg' : cacheGet st' (rule.cacheId, keyOf rule r) (([] : List Bytes).contains (keyOf rule r)) now rule.forceRevalidate
-      = .found (entryOf rt.resp [] now reval) age := by
+  have hg' : cacheGet st' (rule.cacheId, keyOf rule r) (([] : List Bytes).contains (keyOf rule r)) now rule.forceRevalidate a.skipRevalidate
+      = .found (entryOf rt.resp [] now reval) age false := by
     simp only [cacheGet, st', store_get_put, List.contains_nil]
     have : (entryOf rt.resp [] now reval).created = now ∧ (entryOf rt.resp [] now reval).revalidated = (if reval then now else 0) := by
       simp [entryOf]
     rw [this.1, this.2, hfresh]
-  have hwarm := hit_replays_entry cfg now m [] st' a rule r (entryOf rt.resp [] now reval) age hp hg'
+  have hwarm := hit_replays_entry cfg now m [] st' a rule r (entryOf rt.resp [] now reval) age false hp hg'
     (by intro ⟨_, h2⟩; simp [entryOf, hnr] at h2)
   refine ⟨_, _, hcold, hwarm, ⟨{ status := if reval then b!"revalidated" else b!"miss", age := some 0 },
-    { status := hitStatus a.inc, age := some age }, rfl, ?_⟩, rfl, rfl⟩
+    { status := hitStatus a.inc false, age := some age }, rfl, ?_⟩, rfl, rfl⟩
   simp [entryOf]
 
 /-! ## The do-not-cache branch (finding C18-d) -/
@@ -274,18 +320,17 @@ theorem fill_then_hit (cfg : RedirectCache.Cfg) (now : Int) (n m : Nat) (store :
 theorem uncacheable_redirect_not_followed (cfg : RedirectCache.Cfg) (now : Int) (n : Nat) (locks : List Bytes) (store : Store) (a : Act)
     (rule : Rule) (r : Redirect.Req) (reval : Bool) (rt : Routed)
     (hp : Prologue cfg a rule r)
-    (hg : cacheGet store (rule.cacheId, keyOf rule r) (locks.contains (keyOf rule r)) now rule.forceRevalidate = .writer reval)
-    (hroute : route cfg r a.overrideURL (some rule) = .ok rt)
+    (hg : cacheGet store (rule.cacheId, keyOf rule r) (locks.contains (keyOf rule r)) now rule.forceRevalidate a.skipRevalidate = .writer reval)
+    (hroute : route cfg (writerReq store rule r reval) a.overrideURL (some rule) = .ok rt)
     (hdnc : (getCacheControlDirectives rt.resp.header).doNotCache = true) :
     run cfg now (n + 1) locks store a =
       .done { sent := .response rt.resp.status rt.resp.body rt.resp.location { a.inc with status := b!"uncacheable" },
               contacts := [rt.contact], store := store } := by
-  obtain ⟨q, hq, hr, hrf, hcache⟩ := hp
-  subst hr
+  unfold writerReq at hroute
   unfold run
-  simp only [hq, hrf, Option.map_some, Option.getD_some]
-  rw [if_neg hcache]
-  simp only [hg, hroute, hdnc, if_true]
+  rw [step_of_prologue cfg now locks store a rule r hp, hg]
+  simp only [writerRow, hroute, afterAnswer, hdnc]
+  simp
 
 /-! ## Concrete configurations (former witnesses, witnesses and non-vacuity) -/
 
@@ -376,34 +421,192 @@ def isRunaway : RedirectCache.Outcome → Bool
 theorem isRunaway_prepend (c : Contact) (o : RedirectCache.Outcome) : isRunaway (o.prepend c) = isRunaway o := by
   cases o <;> rfl
 
-/-- **run_not_runaway**: for every rule set, origin, clock, lock set, store and activation: once
-    the fuel covers what the counter still allows (`maxRedirects + 1 - a.hops` activations) the
-    run is not cut — every re-entry of `cachingFunc` in this slice is a counted redirect -/
+/-! ### The measure: counted redirects, and at most one uncounted re-entry between two of them -/
+
+/-- `Freshness.decide` with `skipRevalidate` never asks for a revalidation (caching.go:266-271) -/
+theorem decide_skip_not_revalidate (m : Freshness.Entry) (now : Int) (force : Nat) (inm ims : Bytes) (sfx : Option Bytes)
+    (c : Bool) (age : Int) : Freshness.decide m now force true inm ims sfx ≠ .ok (.revalidate c age) := by
+  unfold Freshness.decide
+  cases Freshness.shouldRevalidate m now force <;> simp <;> (repeat' split) <;> simp
+
+/-- `cache.Get` with `skipRevalidate` never hands out a RevalidatingWriter (nor a RevalidatingReader) -/
+theorem get_skip_not_writer (l : Bool) (m : Freshness.Entry) (now : Int) (force : Nat) (age : Int) :
+    Freshness.get l m now force true [] [] none ≠ .ok (.revalidatingWriter age) := by
+  unfold Freshness.get
+  have h := decide_skip_not_revalidate m now force [] [] none
+  cases hd : Freshness.decide m now force true [] [] none with
+  | panic s => simp
+  | ok d =>
+    cases d with
+    | revalidate c a => exact absurd hd (h c a)
+    | _ => simp
+
+/-- **skip_never_revalidates**: an activation that runs with `skipRevalidate` (the re-entry after a
+    304) is never handed a RevalidatingWriter — a writer it gets is a NotFoundWriter -/
+theorem skip_never_revalidates (store : Store) (sk : StoreKey) (l : Bool) (now : Int) (force : Nat) (rv : Bool)
+    (h : cacheGet store sk l now force true = .writer rv) : rv = false := by
+  unfold cacheGet at h
+  split at h
+  · split at h <;> simp_all
+  · rename_i e _
+    have hn := get_skip_not_writer l { header := e.header, created := e.created, revalidated := e.revalidated } now force
+    split at h
+    · simp at h
+    · simp at h
+    · rename_i age hg; exact absurd hg (hn age)
+    · simp at h
+    · simp at h
+
+/-- a NotFoundWriter injects no validator: `usedRevalidateHeader` stays empty -/
+theorem surgery_notFound_used (client stored : Header) : (surgeryOf false client stored).used = [] := by
+  simp [surgeryOf, Conditional.surgery]
+
+/-- hence the 304 row cannot be taken under `skipRevalidate` -/
+theorem no_304_row_under_skip (store : Store) (sk : StoreKey) (l : Bool) (now : Int) (force : Nat) (rv : Bool)
+    (client stored : Header) (h : cacheGet store sk l now force true = .writer rv) :
+    ¬ ((surgeryOf rv client stored).used.length > 0) := by
+  rw [skip_never_revalidates store sk l now force rv h, surgery_notFound_used]
+  simp
+
+/-- what a re-entry of `cachingFunc` is: a COUNTED redirect (the counter allowed it; the new
+    activation revalidates as usual), or the re-entry after a 304 (same counter; it runs with
+    `skipRevalidate`, and the activation that makes it did not) -/
+def Next (maxRedirects : Nat) (a a' : Act) : Prop :=
+  (a'.hops = a.hops + 1 ∧ a.hops + 1 ≤ maxRedirects ∧ a'.skipRevalidate = false) ∨
+  (a'.hops = a.hops ∧ a'.skipRevalidate = true ∧ a.skipRevalidate = false)
+
+/-- a step is in order: it ends by itself, or re-enters in one of the two ways -/
+def StepOK (maxRedirects : Nat) (a : Act) : Step → Prop
+  | .done o => isRunaway o = false
+  | .reenter _ _ a' _ _ => Next maxRedirects a a'
+
+theorem uncachedRow_ok (cfg : RedirectCache.Cfg) (locks : List Bytes) (store : Store) (a : Act) (r : Redirect.Req) (rf : Option Rule) :
+    StepOK cfg.maxRedirects a (uncachedRow cfg locks store a r rf) := by
+  unfold uncachedRow
+  repeat' first | split | (dsimp only; split)
+  all_goals first
+    | rfl
+    | (left; exact ⟨rfl, by omega, rfl⟩)
+
+theorem foundRow_ok (cfg : RedirectCache.Cfg) (locks : List Bytes) (store : Store) (a : Act) (r : Redirect.Req) (rule : Rule)
+    (e : Entry) (age : Int) (stale : Bool) :
+    StepOK cfg.maxRedirects a (foundRow cfg locks store a r rule e age stale) := by
+  unfold foundRow
+  repeat' first | split | (dsimp only; split)
+  all_goals first
+    | rfl
+    | (left; exact ⟨rfl, by omega, rfl⟩)
+
+theorem afterAnswer_ok (cfg : RedirectCache.Cfg) (now : Int) (locks : List Bytes) (store : Store) (a : Act) (r : Redirect.Req)
+    (ks : Bytes) (sk : StoreKey) (reval : Bool) (sg : Conditional.Surgery) (rt : Routed)
+    (hskip : sg.used.length > 0 → a.skipRevalidate = false) :
+    StepOK cfg.maxRedirects a (afterAnswer cfg now locks store a r ks sk reval sg rt) := by
+  unfold afterAnswer
+  repeat' first | split | (dsimp only; split)
+  all_goals first
+    | rfl
+    | (left; exact ⟨rfl, by omega, rfl⟩)
+    | (right; rename_i h; exact ⟨rfl, rfl, hskip h.1⟩)
+
+theorem writerRow_ok (cfg : RedirectCache.Cfg) (now : Int) (locks : List Bytes) (store : Store) (a : Act) (r : Redirect.Req)
+    (rf : Option Rule) (ks : Bytes) (sk : StoreKey) (reval : Bool) (hskip : reval = true → a.skipRevalidate = false) :
+    StepOK cfg.maxRedirects a (writerRow cfg now locks store a r rf ks sk reval) := by
+  unfold writerRow
+  dsimp only
+  split
+  · rfl
+  · apply afterAnswer_ok
+    intro hu
+    cases reval with
+    | true => exact hskip rfl
+    | false => rw [surgery_notFound_used] at hu; simp at hu
+
+/-- **step_ok**: every activation either ends by itself or re-enters as a counted redirect or as
+    the (single) re-entry after a 304 -/
+theorem step_ok (cfg : RedirectCache.Cfg) (now : Int) (locks : List Bytes) (store : Store) (a : Act) :
+    StepOK cfg.maxRedirects a (step cfg now locks store a) := by
+  unfold step
+  repeat' first | split | (dsimp only; split)
+  · rfl
+  · exact uncachedRow_ok ..
+  · rfl
+  · rfl
+  · rfl
+  · exact foundRow_ok ..
+  · rename_i hg
+    apply writerRow_ok
+    intro hrv
+    subst hrv
+    cases hs : a.skipRevalidate with
+    | false => rfl
+    | true =>
+      rw [hs] at hg
+      exact absurd (skip_never_revalidates _ _ _ _ _ _ hg) (by simp)
+
+theorem isRunaway_finish (c : Option Contact) (p : Option (StoreKey × Entry)) (o : RedirectCache.Outcome) :
+    isRunaway (Step.finish c p o) = isRunaway o := by
+  unfold Step.finish
+  cases c with
+  | none => rfl
+  | some c =>
+    cases p with
+    | none => exact isRunaway_prepend c o
+    | some p => cases o <;> rfl
+
+/-- the number of nested activations an activation may still need: two per redirect the counter
+    still allows (the hop itself and, when its stored entry is confirmed by a 304, the uncounted
+    re-entry that serves it) plus two for itself — one if it is such a re-entry already -/
+def need (maxRedirects hops : Nat) (skip : Bool) : Nat := 2 * (maxRedirects - hops) + (if skip then 1 else 2)
+
+theorem need_next (M n : Nat) (a a' : Act) (h : Next M a a') (hb : need M a.hops a.skipRevalidate ≤ n + 1) :
+    need M a'.hops a'.skipRevalidate ≤ n := by
+  unfold need at *
+  rcases h with ⟨h1, h2, h3⟩ | ⟨h1, h2, h3⟩
+  · rw [h1, h3]
+    cases hs : a.skipRevalidate <;> rw [hs] at hb <;> simp at hb ⊢ <;> omega
+  · rw [h1, h2]; rw [h3] at hb; simp at *; omega
+
+theorem need_pos (M h : Nat) (s : Bool) : 0 < need M h s := by
+  unfold need; cases s <;> simp
+
+/-- **run_not_runaway** (the fuel bound, 304 re-entries included): for every rule set, origin,
+    clock, lock set, store and activation: once the fuel covers `need` — two activations per
+    redirect the counter still allows, plus the activation's own (and its possible 304 re-entry) —
+    the run is not cut.  Every re-entry of `cachingFunc` in this slice is either a counted redirect
+    or the re-entry after a 304, and the latter runs with `skipRevalidate`, so it cannot be
+    followed by another one of its kind (`step_ok`, `no_304_row_under_skip`) -/
 theorem run_not_runaway (cfg : RedirectCache.Cfg) (now : Int) :
-    ∀ (fuel : Nat) (locks : List Bytes) (store : Store) (a : Act), 0 < fuel →
-      cfg.maxRedirects + 1 ≤ fuel + a.hops → isRunaway (run cfg now fuel locks store a) = false := by
+    ∀ (fuel : Nat) (locks : List Bytes) (store : Store) (a : Act),
+      need cfg.maxRedirects a.hops a.skipRevalidate ≤ fuel → isRunaway (run cfg now fuel locks store a) = false := by
   intro fuel
   induction fuel with
-  | zero => intro _ _ _ h; omega
+  | zero => intro _ _ a h; have := need_pos cfg.maxRedirects a.hops a.skipRevalidate; omega
   | succ n ih =>
-    intro locks store a _ hb
+    intro locks store a hb
     unfold run
-    simp only []
-    repeat' split
-    all_goals first
-      | rfl
-      | (rw [isRunaway_prepend]; exact ih _ _ _ (by omega) (by dsimp only; omega))
-      | exact ih _ _ _ (by omega) (by dsimp only; omega)
+    have hok := step_ok cfg now locks store a
+    cases hst : step cfg now locks store a with
+    | done o => rw [hst] at hok; exact hok
+    | reenter l s a' c p =>
+      rw [hst] at hok
+      simp only
+      rw [isRunaway_finish]
+      exact ih l s a' (need_next _ _ _ _ hok hb)
+
+/-- the nesting that serves a client request: `2 · (maxRedirects + 1)` -/
+theorem need_client (M : Nat) : need M 0 false = 2 * (M + 1) := by
+  unfold need; simp; omega
 
 /-- "Redirect chains that loop, … whether or not the hops are cached, end in an error response
-    after a bounded number of hops": the nesting `maxRedirects + 1` serves every request of every
-    history, on every rule set and origin — no request is cut as `runaway` -/
+    after a bounded number of hops": the nesting `2 · (maxRedirects + 1)` — every redirect the
+    counter allows, each hop possibly confirmed by a 304 first — serves every request of every
+    history, on every rule set and origin: no request is cut as `runaway` -/
 def CachedTerminationStatement : Prop :=
-  ∀ (cfg : RedirectCache.Cfg) (host : Bytes) (N : Nat), cfg.maxRedirects + 1 ≤ N →
+  ∀ (cfg : RedirectCache.Cfg) (host : Bytes) (N : Nat), 2 * (cfg.maxRedirects + 1) ≤ N →
     ∀ (now : Int) (store : Store) (ops : List Op), ∀ o ∈ history cfg host N now store ops, isRunaway o = false
 
 /-- **cached_terminates** (full strength since the repair of findings C18-a / C18-c; was
-    `CachedTerminationStatement_false`) -/
+    `CachedTerminationStatement_false`; the bound counts the 304 re-entries) -/
 theorem cached_terminates : CachedTerminationStatement := by
   intro cfg host N hN now store ops
   induction ops generalizing now store with
@@ -419,12 +622,12 @@ theorem cached_terminates : CachedTerminationStatement := by
       | some a =>
         rw [hc] at ho
         simp only at ho
-        have ha : a.hops = 0 := by
+        have ha : a.hops = 0 ∧ a.skipRevalidate = false := by
           unfold clientAct at hc
           simp only [Option.map_eq_some_iff] at hc
           obtain ⟨_, _, rfl⟩ := hc
-          rfl
-        have hr := run_not_runaway cfg now N [] store a (by omega) (by omega)
+          exact ⟨rfl, rfl⟩
+        have hr := run_not_runaway cfg now N [] store a (by rw [ha.1, ha.2, need_client]; exact hN)
         cases hrun : run cfg now N [] store a with
         | done d =>
           rw [hrun] at ho
@@ -437,6 +640,155 @@ theorem cached_terminates : CachedTerminationStatement := by
           rw [hrun] at ho
           simp only [List.mem_singleton] at ho
           subst ho; rfl
+
+/-! ## Validators: a stored hop that the origin confirms with 304 -/
+
+/-- the activation `cachingFunc` re-enters with after a 304 (server.go:390-396): the same request
+    (the injected validator deleted, the client's own restored), no `overrideURL`, the final
+    routing flavors as fallback, "revalidated", the SAME redirect counter, `skipRevalidate` -/
+def act304 (store : Store) (a : Act) (rule : Rule) (r : Redirect.Req) (reval : Bool) (rt : Routed) : Act :=
+  { req := { r with headers := afterRestore (surgeryOf reval r.headers (store.headerOf (rule.cacheId, keyOf rule r))) },
+    overrideURL := none, frf := some rt.rule, inc := { a.inc with status := b!"revalidated" }, hops := a.hops,
+    skipRevalidate := true }
+
+/-- the 304 row is a RevalidatingWriter's: a NotFoundWriter sends no validator -/
+theorem is304Row_reval (store : Store) (rule : Rule) (r : Redirect.Req) (reval : Bool) (rt : Routed)
+    (h : Is304Row store rule r reval rt) : reval = true := by
+  cases reval with
+  | true => rfl
+  | false => have := h.1; rw [surgery_notFound_used] at this; simp at this
+
+/-- **revalidation_reenters**: the writer row on a 304 that does not forbid caching
+    (server.go:382-397): the entry is re-published by `SetRevalidatedAndClose`, and the activation
+    IS the re-entry `act304` on that store, after its one contact — nothing is handed to the
+    client by this activation, no lock is kept, the redirect counter is not touched -/
+theorem revalidation_reenters (cfg : RedirectCache.Cfg) (now : Int) (n : Nat) (locks : List Bytes) (store : Store) (a : Act)
+    (rule : Rule) (r : Redirect.Req) (reval : Bool) (rt : Routed)
+    (hp : Prologue cfg a rule r)
+    (hg : cacheGet store (rule.cacheId, keyOf rule r) (locks.contains (keyOf rule r)) now rule.forceRevalidate a.skipRevalidate = .writer reval)
+    (hroute : route cfg (writerReq store rule r reval) a.overrideURL (some rule) = .ok rt)
+    (h304 : Is304Row store rule r reval rt) :
+    run cfg now (n + 1) locks store a =
+      (run cfg now n locks (store.revalidate (rule.cacheId, keyOf rule r) rt.resp.header now)
+        (act304 store a rule r reval rt)).prepend rt.contact := by
+  unfold writerReq at hroute
+  unfold Is304Row at h304
+  conv => lhs; unfold run
+  rw [step_of_prologue cfg now locks store a rule r hp, hg]
+  simp only [writerRow, hroute, afterAnswer]
+  rw [if_pos h304]
+  rfl
+
+theorem store_get_put_ne (s : Store) (k k' : StoreKey) (e : Entry) (h : k' ≠ k) : (s.put k e).get k' = s.get k' := by
+  unfold Store.get Store.put
+  rw [List.find?_cons_of_neg (by simpa using fun h' => h h'.symm)]
+  congr 1
+  rw [List.find?_filter]
+  congr 1
+  funext x
+  by_cases hx : x.1 = k'
+  · have hk : ¬ x.1 = k := fun h' => h (hx.symm.trans h')
+    simp [hx, hk, h]
+  · simp [hx]
+
+/-- **revalidated_hop_keeps_target** (`storageWriter.Close`, branch `sw.fd == nil &&
+    sw.wasRevalidated`): after a 304 revalidation the stored entry keeps its `redirectedURL`, its
+    status, its body and its fill time; `revalidated` is the instant of the 304, the header is the
+    stored one with the 304's lines merged in; every other entry of the cache is untouched -/
+theorem revalidated_hop_keeps_target (store : Store) (sk : StoreKey) (e : Entry) (h304 : Header) (now : Int)
+    (h : store.get sk = some e) :
+    (∃ e', (store.revalidate sk h304 now).get sk = some e' ∧
+       e'.redirectedURL = e.redirectedURL ∧ e'.status = e.status ∧ e'.body = e.body ∧ e'.created = e.created ∧
+       e'.revalidated = now ∧ e'.header = Conditional.merge304 e.header (Conditional.dropZeroContentLength h304)) ∧
+    (∀ k, k ≠ sk → (store.revalidate sk h304 now).get k = store.get k) := by
+  unfold Store.revalidate
+  rw [h]
+  refine ⟨⟨e.after304 h304 now, store_get_put _ _ _, rfl, rfl, rfl, rfl, rfl, rfl⟩, ?_⟩
+  intro k hk
+  exact store_get_put_ne _ _ _ _ hk
+
+/-- the performer is asked exactly the request the handler prepared -/
+theorem route_contact_headers (cfg : RedirectCache.Cfg) (r : Redirect.Req) (o : Option RUrl) (f : Option Rule) (rt : Routed)
+    (h : route cfg r o f = .ok rt) : rt.contact.headers = r.headers := by
+  unfold route at h
+  repeat' first | split at h | (dsimp only at h; split at h)
+  all_goals first
+    | (simp only [Except.ok.injEq] at h; subst h; rfl)
+    | simp at h
+
+theorem header_get_set (h : Header) (k v : Bytes) : Header.get (Header.set h k v) k = v := by
+  simp [Header.get, Header.values, Header.set, Header.setRaw, Header.vals]
+
+/-- the request of a RevalidatingWriter that sends a validator carries the stored validator under
+    the header `util.RevalidateHeaders` names (for a stored ETag: `If-None-Match: <ETag>`) -/
+theorem revalidation_request_conditional (client stored : Header)
+    (hu : (surgeryOf true client stored).used.length > 0) :
+    (surgeryOf true client stored).used = (Conditional.revalidateHeaders stored).1 ∧
+    Header.get (surgeryOf true client stored).req (Conditional.revalidateHeaders stored).1 = (Conditional.revalidateHeaders stored).2.2 := by
+  unfold surgeryOf Conditional.surgery at hu ⊢
+  simp only [if_true, Bool.false_eq_true, if_false] at hu ⊢
+  split
+  · exact ⟨rfl, header_get_set _ _ _⟩
+  · rename_i hn; rw [if_neg hn] at hu; simp at hu
+
+/-- **revalidated_hop_followed**: a request whose stale stored redirect hop is confirmed by a 304:
+    the re-entry after the 304 is answered by the Found site from the STORED target (`hnext`), and
+    the whole request equals what a request `w` that finds the hop fresh and follows it to the same
+    activation (the warm request: `hw`) does on the revalidated store — plus exactly one contact in
+    front, the conditional request, which carries the stored validator.  In particular (`.2.1`):
+    the client is sent the same `Sent`. -/
+theorem revalidated_hop_followed (cfg : RedirectCache.Cfg) (now : Int) (n : Nat) (locks : List Bytes) (store : Store) (a : Act)
+    (rule : Rule) (r : Redirect.Req) (rt : Routed)
+    (hp : Prologue cfg a rule r)
+    (hg : cacheGet store (rule.cacheId, keyOf rule r) (locks.contains (keyOf rule r)) now rule.forceRevalidate a.skipRevalidate = .writer true)
+    (hroute : route cfg (writerReq store rule r true) a.overrideURL (some rule) = .ok rt)
+    (h304 : Is304Row store rule r true rt)
+    (hb : a.hops + 1 ≤ cfg.maxRedirects)
+    (a'' : Act)
+    (hnext : foundNext cfg now locks (store.revalidate (rule.cacheId, keyOf rule r) rt.resp.header now)
+               (act304 store a rule r true rt) = some a'')
+    (w : Act) (hwh : w.hops = a.hops)
+    (hw : foundNext cfg now locks (store.revalidate (rule.cacheId, keyOf rule r) rt.resp.header now) w = some a'') :
+    run cfg now (n + 2) locks store a =
+      (run cfg now (n + 1) locks (store.revalidate (rule.cacheId, keyOf rule r) rt.resp.header now) w).prepend rt.contact ∧
+    (∀ d, run cfg now (n + 1) locks (store.revalidate (rule.cacheId, keyOf rule r) rt.resp.header now) w = .done d →
+       run cfg now (n + 2) locks store a = .done { sent := d.sent, contacts := rt.contact :: d.contacts, store := d.store }) ∧
+    Header.get rt.contact.headers (Conditional.revalidateHeaders (store.headerOf (rule.cacheId, keyOf rule r))).1
+      = (Conditional.revalidateHeaders (store.headerOf (rule.cacheId, keyOf rule r))).2.2 := by
+  have h1 := revalidation_reenters cfg now (n + 1) locks store a rule r true rt hp hg hroute h304
+  have h2 := found_reentry cfg now n locks _ _ a'' hnext (by show a.hops + 1 ≤ cfg.maxRedirects; exact hb)
+  have h3 := found_reentry cfg now n locks _ w a'' hw (by omega)
+  have hmain : run cfg now (n + 2) locks store a =
+      (run cfg now (n + 1) locks (store.revalidate (rule.cacheId, keyOf rule r) rt.resp.header now) w).prepend rt.contact := by
+    rw [h1, h2, h3]
+  refine ⟨hmain, ?_, ?_⟩
+  · intro d hd
+    rw [hmain, hd]; rfl
+  · have hc := route_contact_headers cfg _ _ _ rt hroute
+    rw [hc]
+    exact (revalidation_request_conditional _ _ h304.1).2
+
+/-- **revalidated_final_served**: the same for a stored answer that is NOT a redirect to follow
+    (the final hop of a chain, or any hop under a rule without restart_on_redirect): confirmed by
+    a 304 it is replayed as stored — status, body, Location — under "revalidated", at the age the
+    re-published entry has, after the one conditional contact -/
+theorem revalidated_final_served (cfg : RedirectCache.Cfg) (now : Int) (n : Nat) (locks : List Bytes) (store : Store) (a : Act)
+    (rule : Rule) (r : Redirect.Req) (rt : Routed)
+    (hp : Prologue cfg a rule r)
+    (hg : cacheGet store (rule.cacheId, keyOf rule r) (locks.contains (keyOf rule r)) now rule.forceRevalidate a.skipRevalidate = .writer true)
+    (hroute : route cfg (writerReq store rule r true) a.overrideURL (some rule) = .ok rt)
+    (h304 : Is304Row store rule r true rt)
+    (rule' : Rule) (r' : Redirect.Req) (e : Entry) (age : Int) (stale : Bool)
+    (hp' : Prologue cfg (act304 store a rule r true rt) rule' r')
+    (hg' : cacheGet (store.revalidate (rule.cacheId, keyOf rule r) rt.resp.header now) (rule'.cacheId, keyOf rule' r')
+             (locks.contains (keyOf rule' r')) now rule'.forceRevalidate true = .found e age stale)
+    (hnr : ¬ (rule'.restartOnRedirect ∧ cfg.isRedirect e.status)) :
+    run cfg now (n + 2) locks store a =
+      .done { sent := .response e.status e.body (e.header.get b!"Location") { status := b!"revalidated", age := some age },
+              contacts := [rt.contact], store := store.revalidate (rule.cacheId, keyOf rule r) rt.resp.header now } := by
+  rw [revalidation_reenters cfg now (n + 1) locks store a rule r true rt hp hg hroute h304,
+      hit_replays_entry cfg now n locks _ _ rule' r' e age stale hp' hg' hnr]
+  rfl
 
 def opsC : List Op := [.request b!"/p/a", .request b!"/p/b", .request b!"/f/a"]
 
@@ -516,7 +868,7 @@ example : ∃ d d', run cfgOK t0 1 [] [] (clientGet b!"/b") = .done d ∧ run cf
   obtain ⟨d, d', h1, h2, _, h3, h4⟩ :=
     fill_then_hit cfgOK t0 0 0 [] (clientGet b!"/b") rootRule (clientGet b!"/b").req false
       { rule := rootRule, contact := contactAt b!"/b", resp := { status := 200, cacheControl := b!"max-age=60", body := b!"target" }, redir := none }
-      ⟨queryOf b!"/b", rfl, rfl, rfl, by decide⟩ rfl rfl rfl rfl (by decide) rfl rfl 0 rfl
+      ⟨queryOf b!"/b", rfl, rfl, rfl, by decide⟩ rfl rfl (by decide) rfl rfl (by decide) rfl rfl 0 rfl
   exact ⟨d, d', h1, h2, h3, h4⟩
 
 /-- `uncacheable_redirect_not_followed`: `GET /a` (302, no-store) on the restarting root rule -/
@@ -563,5 +915,131 @@ example :
     outs.map (fun o => (Spec.C18Cache.obsOf o).cut) = [none, none] ∧
     outs.map (fun o => (Spec.C18Cache.obsOf o).contacts.length) = [11, 1] ∧
     outs.map (fun o => (doneOf o).store.length) = [10, 10] := by decide
+
+/-! ## Validators: concrete histories and non-vacuity of the 304 theorems -/
+
+/-- an origin keyed by request path that honours `If-None-Match`: a request naming the current
+    ETag of the path is answered 304 (ETag, the same Cache-Control, no body) -/
+def originCond (tbl : List (Bytes × OResp)) (c : Contact) : Option OResp :=
+  if c.url.scheme = b!"http" ∧ c.url.host = b!"d0.test" then
+    match tbl.lookup c.url.path with
+    | some r =>
+      if r.etag ≠ [] ∧ Header.get c.headers b!"If-None-Match" = r.etag then
+        some { status := 304, cacheControl := r.cacheControl, etag := r.etag }
+      else some r
+    | none => some { status := 404, body := b!"unknown" }
+  else none
+
+/-- `/a` → 302 `/b` with a validator, `/b` → 200 with a validator, both live for 60 s -/
+def cfgV : RedirectCache.Cfg :=
+  { rules := [rootRule],
+    origin := originCond [(b!"/a", { status := 302, location := b!"/b", cacheControl := b!"max-age=60", body := b!"moved-0", etag := b!"\"v0\"" }),
+                          (b!"/b", { status := 200, cacheControl := b!"max-age=60", body := b!"target", etag := b!"\"v1\"" })],
+    isRedirect := fun s => Spec.redirectStatuses.contains s, hasStorage := fun id => id == b!"c1", maxRedirects := Spec.maxRedirects }
+
+def inmOf (c : Contact) : Bytes := Header.get c.headers b!"If-None-Match"
+
+/-- cold, warm, 61 s later (both hops are due: each is confirmed by a 304 and the STORED target of
+    `/a` is followed), warm again: the client receives `200 target` four times; the third request
+    makes exactly two contacts, both conditional, and hands out the entry as "revalidated" at age 0 -/
+example :
+    let outs := history cfgV edge 40 t0 [] [.request b!"/a", .request b!"/a", .tick 61, .request b!"/a", .request b!"/a"]
+    outs.map (fun o => (Spec.C18Cache.obsOf o).status) = [200, 200, 200, 200] ∧
+    outs.map (fun o => (Spec.C18Cache.obsOf o).body) = List.replicate 4 (toHex b!"target") ∧
+    outs.map (fun o => (Spec.C18Cache.obsOf o).cacheStatus) = [b!"miss", b!"hit", b!"revalidated", b!"hit"] ∧
+    outs.map (fun o => (doneOf o).contacts.map inmOf) = [[[], []], [], [b!"\"v0\"", b!"\"v1\""], []] ∧
+    outs.map (fun o => (doneOf o).store.map (·.2.redirectedURL)) =
+      [[b!"http://d0.test/b", []], [b!"http://d0.test/b", []], [[], b!"http://d0.test/b"], [[], b!"http://d0.test/b"]] := by decide
+
+/-- the store the cold request leaves behind, and the instant at which both entries are due -/
+def storeV : Store := (doneOf (run cfgV t0 40 [] [] (clientGet b!"/a"))).store
+def t61 : Int := t0 + 61
+
+def contactCond (path etag : Bytes) : Contact :=
+  { url := { scheme := b!"http", host := b!"d0.test", path := path }, hostField := b!"d0.test",
+    headers := [(b!"If-None-Match", [etag])] }
+
+def rt304 : Routed :=
+  { rule := rootRule, contact := contactCond b!"/a" b!"\"v0\"",
+    resp := { status := 304, cacheControl := b!"max-age=60", etag := b!"\"v0\"" }, redir := none }
+
+/-- `revalidation_reenters`, `revalidated_hop_keeps_target`, `revalidated_hop_followed`: `GET /a`
+    at `t61` on `storeV` meets every hypothesis; the warm request `w` is the client's own request
+    (at the same instant, on the revalidated store, it finds the hop fresh) -/
+example : ∃ d, run cfgV t61 39 [] (storeV.revalidate (b!"c1", keyOf rootRule (clientGet b!"/a").req) rt304.resp.header t61) (clientGet b!"/a") = .done d ∧
+    run cfgV t61 40 [] storeV (clientGet b!"/a") = .done { sent := d.sent, contacts := rt304.contact :: d.contacts, store := d.store } ∧
+    inmOf rt304.contact = b!"\"v0\"" := by
+  obtain ⟨_, h2, h3⟩ :=
+    revalidated_hop_followed cfgV t61 38 [] storeV (clientGet b!"/a") rootRule (clientGet b!"/a").req rt304
+      ⟨queryOf b!"/a", rfl, rfl, rfl, by decide⟩ rfl rfl (by decide) (by decide)
+      _ rfl (clientGet b!"/a") rfl rfl
+  exact ⟨doneOf (run cfgV t61 39 [] (storeV.revalidate (b!"c1", keyOf rootRule (clientGet b!"/a").req) rt304.resp.header t61) (clientGet b!"/a")),
+    rfl, h2 _ rfl, by decide⟩
+
+example : (storeV.get (b!"c1", keyOf rootRule (clientGet b!"/a").req)).map (·.redirectedURL) = some b!"http://d0.test/b" := by decide
+
+/-- what a cold `GET /b` leaves behind (the client's own `/b` has the edge host in its key) -/
+def storeVB : Store := (doneOf (run cfgV t0 40 [] [] (clientGet b!"/b"))).store
+
+/-- `revalidated_final_served`: `GET /b` at `t61` on `storeVB` (the 200 is confirmed by a 304 and
+    replayed from the cache under "revalidated"; the entry is re-stamped) -/
+example :
+    let o := run cfgV t61 40 [] storeVB (clientGet b!"/b")
+    (Spec.C18Cache.obsOf o).status = 200 ∧ (Spec.C18Cache.obsOf o).body = toHex b!"target" ∧
+    (Spec.C18Cache.obsOf o).cacheStatus = b!"revalidated" ∧ (doneOf o).contacts.map inmOf = [b!"\"v1\""] ∧
+    (doneOf o).store.map (fun x => (x.2.status, x.2.revalidated - t0)) = [(200, 61)] := by decide
+
+/-- `skip_never_revalidates` / `run_not_runaway`: with `skipRevalidate` an entry that is due is
+    served (Found, `IsStale`), not revalidated: `GET /b` at `t61` as a 304 re-entry would run -/
+example :
+    let o := run cfgV t61 1 [] storeVB { clientGet b!"/b" with skipRevalidate := true }
+    (Spec.C18Cache.obsOf o).status = 200 ∧ (Spec.C18Cache.obsOf o).cacheStatus = b!"stale" ∧ (doneOf o).contacts.length = 0 := by decide
+
+/-- finding C09-b seen from C18 (witness stream kf.C09-b.sysrc, case 0): the 304 that confirms the
+    due redirect hop says `no-store` -/
+def cfgB : RedirectCache.Cfg :=
+  { cfgV with origin := fun c =>
+      match originCond [(b!"/a", { status := 302, location := b!"/b", cacheControl := b!"max-age=60", body := b!"moved-0", etag := b!"\"v0\"" }),
+                        (b!"/b", { status := 200, cacheControl := b!"max-age=60", body := b!"target" })] c with
+      | some r => if r.status = 304 then some { r with cacheControl := b!"no-store" } else some r
+      | none => none }
+
+open Spec.C18Cache in
+def nodesB : List CNode :=
+  [{ path := b!"/a", redirect := true, status := 302, body := b!"moved-0", location := b!"/b", cc := b!"max-age=60", intended := 1, ruleIdx := -1,
+     etag := b!"\"v0\"", cc304 := b!"no-store" },
+   { path := b!"/b", redirect := false, status := 200, body := b!"target", location := [], cc := b!"max-age=60", intended := -1, ruleIdx := -1 }]
+
+/-- **fails_witness_09b**: cold the chain is followed; 61 s later the hop is due, the origin
+    confirms it with `304 … no-store`, and the client is handed that 304: the oracle rejects it; the
+    input lies in the class -/
+theorem fails_witness_09b :
+    let ops : List Op := [.request b!"/a", .tick 61, .request b!"/a"]
+    let obs := (history cfgB edge 40 t0 [] ops).map Spec.C18Cache.obsOf
+    obs.map (·.status) = [200, 304] ∧
+    (Spec.C18Cache.holds nodesB [rootRule] edge {} [.request b!"/a" 0, .tick 61, .request b!"/a" 0] obs).bad
+      = ["bad:C18:final-response-is-not-the-sinks"] ∧
+    Spec.C18Cache.inClass_C09_b nodesB (Spec.C18Cache.chainOf nodesB [rootRule] edge b!"/a" 0) true = true := by decide
+
+/-- the fuel bound of `cached_terminates` is attained up to the last activation: the 12-ring with
+    validators, every hop stored and due — each of the ten hops the counter allows is confirmed by a
+    304 (two activations per hop), the eleventh answer (a hop that was never stored: fetched) is a
+    redirect the counter refuses: 21 activations (fuel 20 is cut, fuel 21 serves it), 10 conditional
+    contacts and one plain one, 508 -/
+def cfgRingV : RedirectCache.Cfg :=
+  { rules := [rootRule],
+    origin := originCond ((List.range 12).map fun i =>
+      (ringName i, ({ status := 302, location := ringName ((i + 1) % 12), cacheControl := b!"max-age=60", body := b!"moved", etag := b!"\"r\"" } : OResp))),
+    isRedirect := fun s => Spec.redirectStatuses.contains s, hasStorage := fun id => id == b!"c1", maxRedirects := Spec.maxRedirects }
+
+def storeRingV : Store :=
+  (doneOf (run cfgRingV t0 40 [] (doneOf (run cfgRingV t0 40 [] [] (clientGet b!"/c0"))).store (clientGet b!"/c10"))).store
+
+example : storeRingV.length = 13 := by decide
+
+example :
+    isRunaway (run cfgRingV t61 20 [] storeRingV (clientGet b!"/c0")) = true ∧
+    (Spec.C18Cache.obsOf (run cfgRingV t61 21 [] storeRingV (clientGet b!"/c0"))).status = 508 ∧
+    (doneOf (run cfgRingV t61 21 [] storeRingV (clientGet b!"/c0"))).contacts.map inmOf = List.replicate 10 b!"\"r\"" ++ [[]] := by decide
 
 end Props.C18Cache
